@@ -223,6 +223,80 @@ def run(prog, rep, tier):
     _c12.r121(prog, rep, R27)
     rep.floor("R2.7", 3)
 
+    # ------------------------------------------------------------ R2.11 the range index is updated with one range per message
+    # SyslineReader keeps a RangeMap from byte ranges to messages.  The range entered for a message and
+    # the range taken out when the message is removed (year re-processing) must be the same range; a
+    # shorter removal leaves a stale byte that still maps to the removed key, and the next lookup of
+    # that byte indexes a message that no longer exists (panic, nothing printed).
+    R211 = rep.rule("R2.11", "insert and remove on the range index build the same range for a message")
+    SRp = "s4lib::readers::syslinereader::SyslineReader"
+    shapes = {}
+    for fn_, verb in (("::insert_sysline", "insert"), ("::remove_sysline", "remove")):
+        fb2 = prog.body(SRp + fn_)
+        for c in fb2.live_calls():
+            if "RangeMap" in c.d and c.d.split("::")[-1] == verb and len(c.args) >= 2:
+                for x in fb2.origins(c.args[1]):
+                    if x[0] == "agg":
+                        st_ = fb2.stmts(x[1])[x[2]]
+                        shapes.setdefault(verb, []).append((tuple(fb2.shape(o_) for o_ in st_[2][2]), c.line))
+    rep.examined(R211, SRp + "|range-index", sample={k_: [str(v_[0]) for v_ in vs] for k_, vs in shapes.items()})
+    if not shapes.get("insert") or not shapes.get("remove"):
+        raise CheckerError("range index: insert (%d) / remove (%d) sites not recognised" % (len(shapes.get("insert", [])), len(shapes.get("remove", []))))
+    ins_sh = set(v_[0] for v_ in shapes["insert"])
+    for sh_, ln_ in shapes["remove"]:
+        if sh_ not in ins_sh:
+            rep.violation(R211, SRp + "|range-index", "SyslineReader::remove_sysline takes the range %s out of syslines_by_range (line %d) but insert_sysline enters %s; the byte(s) in the difference keep pointing at the removed message, "
+                          "and the next lookup there panics ('no entry found for key') during year re-processing" % (str(sh_), ln_, [str(x) for x in ins_sh]))
+
+    # ------------------------------------------------------------ R2.10 "ends with a newline" looks at the last byte of the last line
+    # The final newline is supplied only when Sysline::last_byte() is not a newline; the last byte of a
+    # message is the last byte of the last part of its last line.  Every selection in last_byte must
+    # therefore take the last element (last(), next_back(), get(len-1), [len-1]).
+    R210 = rep.rule("R2.10", "Sysline::last_byte selects the last line, its last part and its last byte")
+    lb = prog.body("s4lib::data::sysline::Sysline::last_byte")
+    sels = []
+    for c in lb.live_calls():
+        nm = (c.o or c.d).split("::")[-1]
+        if nm in ("first", "last", "next", "next_back", "nth", "get", "get_unchecked", "index", "first_key_value", "last_key_value", "front", "back"):
+            kind = None
+            if nm in ("last", "next_back", "last_key_value", "back"):
+                kind = "last"
+            elif nm in ("first", "first_key_value", "front", "next"):
+                kind = "first"
+            elif len(c.args) >= 2:
+                v = lb.eval_int(c.args[1])
+                if v is not None:
+                    kind = "first" if v == 0 else "const %d" % v
+                else:
+                    for x in lb.origins(c.args[1]):
+                        if x[0] == "bin":
+                            st_ = lb.stmts(x[1])[x[2]]
+                            if st_[2][1].startswith("Sub") and lb.eval_int(st_[2][3]) == 1 and any(y[0] == "call" and y[2].split("::")[-1] == "len" for y in lb.origins(st_[2][2])):
+                                kind = "last"
+            sels.append((nm, kind, c.line))
+    for bb in sorted(lb.live):
+        for s_ in lb.stmts(bb):
+            if s_[0] == "=" and s_[2][0] == "use" and s_[2][1][0] != "k":
+                pl = s_[2][1][1]
+                for e_ in pl[1:]:
+                    if isinstance(e_, list) and e_ and e_[0] == "[]":
+                        kind = None
+                        for x in lb.origins(["cp", [e_[1]]]):
+                            if x[0] == "bin":
+                                st_ = lb.stmts(x[1])[x[2]]
+                                if st_[2][1].startswith("Sub") and lb.eval_int(st_[2][3]) == 1:
+                                    kind = "last"
+                            elif x[0] == "const":
+                                kind = "first" if str(x[1]) == "0" else "const"
+                        sels.append(("[]", kind, s_[-1] if isinstance(s_[-1], int) else 0))
+    rep.examined(R210, lb.path, sample={"selections": sels})
+    if len(sels) < 2:
+        raise CheckerError("Sysline::last_byte: only %d element selections recognised" % len(sels))
+    wrong = [x for x in sels if x[1] != "last"]
+    if wrong:
+        rep.violation(R210, lb.path + "|selection", "Sysline::last_byte takes %s (%s, line %s) instead of the last element; for a multi-line message it then answers for the first line, whose last byte is always a newline, "
+                      "and the final newline of a file that lacks one is not supplied" % (wrong[0][0], wrong[0][1], wrong[0][2]))
+
     # ------------------------------------------------------------ R2.9 a message whose end was not seen is stored only at end of file
     # The block-bounded line search answers Done both at the end of the block and at the end of the
     # file.  In find_sysline_in_block_year the message under construction may be stored after a Done
